@@ -1058,7 +1058,8 @@ def get_grid_search_neighbors(
     # Take points closest to reference points
     res_S = None
     if function_logger.noise_flag:
-        res_S = function_logger.S[sort_idx[0:ntrain]]
+        # GP expects the observation noise as a variance
+        res_S = function_logger.S[sort_idx[0:ntrain]] ** 2
     return (U[sort_idx[0:ntrain]], Y[sort_idx[0:ntrain]], res_S)
 
 
@@ -1165,7 +1166,7 @@ def add_and_update_gp(
     gp.X = np.concatenate((gp.X, np.atleast_2d(x_new)))
     gp.y = np.concatenate((gp.y, np.atleast_2d(y_new)))
     if options["specify_target_noise"] and sd_new is not None:
-        gp.s2 = np.concatenate((gp.s2, np.atleast_2d(sd_new)))
+        gp.s2 = np.concatenate((gp.s2, np.atleast_2d(sd_new) ** 2))
 
     gp.update(compute_posterior=True)
 
